@@ -19,7 +19,7 @@ checks = {
    note="As C01. MVP-6.0/6.1 write wrong-path register results by design (the README introduces the guarantee with 6.2); that and the cache-hit shadow store are known findings."),
  "C04": dict(engine="diffmon", tech=DIFF+"; each configuration repeated 5-20 times to sample map-order-dependent dispatch schedules", ref="5/C04",
    text="Exploration over register-pressure programs (chains, fans, WAW/WAR pairs, mixed-latency producers); the per-instruction lockstep oracle sees a wrong operand even when a later overwrite hides it from the final state.",
-   note="As C01. The renaming gap of MVP-6.3+ (two writers of one register in flight) is a known finding; power on those variants is limited to programs without that trigger."),
+   note="As C01. The regdep family has no branches, so no known finding applies to it since the renaming repairs (attributed count 0 in the evidence); programs with branches on MVP-6.3+ can still be attributed to KF-21 when the event log shows a branch resolving between the writes concerned."),
  "C05": dict(engine="diffmon", tech=DIFF+" on memory-walk programs larger than every cache", ref="5/C05",
    text="Exploration over strided walks, ping-pong sets, store/evict/reload and random sub-word accesses in 8-16 KB memories on MVP-3..8 (quick: the least and the most parallel configuration of each variant; thorough: all); every loaded value and the final memory image are compared.",
    note="As C01."),
@@ -43,7 +43,7 @@ checks = {
    note="Producers obey CanAdd; cycles non-decreasing."),
  "C15": dict(engine="compmon", tech="reference-model monitor: scripted write/read/commit/rollback histories on the Context transaction map, the rename table and comp.RAT against a tag-ordered write list", ref="5/C15",
    text="Bounded-exhaustive (all histories up to length 5 quick / 6 thorough over 2 registers x 4 tags in any order, ring lengths 2, 3 and 10) plus random histories of length 200 on ring lengths 2..10.",
-   note="'Youngest' = most recent in the history among the eligible writes."),
+   note="For writes that arrive out of tag order 'youngest' is accepted in either reading (most recent in the history, or largest tag)."),
  "C16": dict(engine="isamon", tech="runtime comparison of common/bytes with encoding/binary little-endian in both directions", ref="5/C16",
    text="quick: structured + 4*10^6 random values; thorough: all 2^32 values and all 2^32 byte quadruples (exhaustive).",
    note="Trusted: encoding/binary."),
